@@ -170,12 +170,14 @@ class _Service(httpx.AsyncBaseTransport):
 
 # ----------------------------------------------------------------------------- S3
 class FakeS3(_Service):
-    def __init__(self, *, bucket, key_id, secret, region, host, page_size=1000, verify=True, **kw):
+    def __init__(self, *, bucket, key_id, secret, region, host, page_size=1000, verify=True, token_style='urlsafe', **kw):
         super().__init__(**kw)
         self.bucket, self.key_id, self.secret, self.region, self.host = bucket, key_id, secret, region, host
         self.page_size = page_size
         self.verify = verify
         self.signed_ok = 0
+        self.token_style = token_style
+        self._tokens = {}
 
     def error_body(self, code, name=None):
         name = name or {403: 'AccessDenied', 404: 'NoSuchKey', 500: 'InternalError', 503: 'SlowDown', 429: 'TooManyRequests'}.get(code, 'Error')
@@ -248,10 +250,10 @@ class FakeS3(_Service):
         keys = sorted((k for k in self.objects if k.startswith(prefix)), key=lambda k: k.encode('utf-8'))
         start = 0
         if token is not None:
-            try:
-                after = base64.urlsafe_b64decode(token.encode()).decode('utf-8')
-            except Exception:  # noqa
+            if token not in self._tokens:
+                self.violations.append({'op': 'list', 'error': f'continuation token {token!r} is not one the service issued (issued: {sorted(self._tokens)[:3]})'})
                 return self.respond(400, self.error_body(400, 'InvalidArgument'))
+            after = self._tokens[token]
             start = len([k for k in keys if k.encode('utf-8') <= after.encode('utf-8')])
         page = keys[start:start + self.page_size]
         truncated = start + self.page_size < len(keys)
@@ -263,7 +265,14 @@ class FakeS3(_Service):
             x.append(f'<Contents><Key>{escape(k)}</Key><Size>{len(self.objects[k])}</Size><StorageClass>STANDARD</StorageClass></Contents>')
         if truncated:
             # opaque tokens may contain any printable character
-            tok = base64.urlsafe_b64encode(page[-1].encode('utf-8')).decode()
+            raw = hashlib.sha256(page[-1].encode('utf-8')).digest()[:12]
+            if self.token_style == 'urlsafe':
+                tok = base64.urlsafe_b64encode(raw).decode()
+            elif self.token_style == 'b64std':
+                tok = base64.standard_b64encode(raw + b'\xfb\xff').decode() + '=='
+            else:
+                tok = 'tok +/=&%?#~*' + base64.standard_b64encode(raw).decode() + ' é日'
+            self._tokens[tok] = page[-1]
             x.append(f'<NextContinuationToken>{escape(tok)}</NextContinuationToken>')
         x.append('</ListBucketResult>')
         return self.respond(200, ''.join(x).encode('utf-8'), {'content-type': 'application/xml'})
